@@ -3188,17 +3188,26 @@ func (p *Parser) parseSet() (*SetLiteral, error) {
 		return nil, newParseError(tokstr(tok, lit), []string{"("}, pos)
 	}
 	vals := make(map[interface{}]bool)
+	neg := false
 	for {
 		tok, pos, lit = p.ScanIgnoreWhitespace()
-		if len(lit) != 0 {
+		if tok == STRING {
+			// the empty string is a member like any other
+			vals[lit] = true
+		} else if len(lit) != 0 {
 			switch tok {
 			case INTEGER, NUMBER:
 				val, _ := strconv.ParseFloat(lit, 64)
+				if neg {
+					// a negative number arrives as SUB followed by the digits
+					val = -val
+				}
 				vals[val] = true
 			default:
 				vals[lit] = true
 			}
 		}
+		neg = tok == SUB
 		if tok == RPAREN {
 			break
 		}
